@@ -194,7 +194,7 @@ func (c *Ctx) runTLC(j TLCJob) TLCResult {
 	if j.Timeout == 0 {
 		j.Timeout = 20 * time.Minute
 	}
-	args := []string{"-XX:+UseParallelGC", "-Xss512m", "-Xmx12g"}
+	args := []string{"-XX:+UseParallelGC", "-Xss512m", "-Xmx28g"}
 	if j.OutFile != "" {
 		os.Remove(j.OutFile)
 		args = append(args, "-Dverif.out="+j.OutFile)
